@@ -260,6 +260,14 @@ def run(ctx):
         ctx.check(one_set, "R13.4", cpc, "one-letter-set-for-the-whole-parser",
                   "the set that detects duplicate letters is not a single std::set declared once per consistency check (found %s outer, %s per-iteration): "
                   "letters are only unique per group/kind" % ([s[1] for s in sets], inner_sets), cpc)
+        # the walk over the letters happens on EVERY call: a remembered verdict cannot be right, since options carry no link back
+        # to the parser and short_name()/new declarations after a successful parse do not reset it
+        feo_ids = {f0.id for f0 in prog.find(NS + "parser::for_each_option")} | {cf.id for cf in collectors.values()}
+        walks = lambda e: any(n.get("callee") in feo_ids for n in elem_calls(e))
+        okw, pathw = cfg.must_happen_before_exit(cpc, walks)
+        ctx.check(okw, "R13.4", cpc, "letters-walked-on-every-call",
+                  "check_parser_consistency() can return (B%s) without looking at the declared letters: a verdict remembered from an earlier parse lets two options that share a letter "
+                  "since then be parsed" % "->B".join(map(str, pathw or [])), cpc, why_ok="every path to the exit walks the options")
         # every kind visited: the lambda instantiations exist for all kinds and raise parser_error on failed insertion
         kinds_seen = set()
         for g in inner:
